@@ -266,8 +266,8 @@ FAMS = [
          kind='list', min=1, max=dict(q=1, t=1),
          slots=[dict(q='COLORTOKS_Q', t='COLORTOKS_T')]),
     dict(fam='num', props=['width', 'x', 'z-index', 'line-height', 'margin-left', 'transform', 'flex', 'grid-template-columns', 'opacity', 'rotate:EXCL'], kind='num',
-         slots=[dict(q=L('0', '0.0', '.0', '-0', '1', '1.0', '01', '+1', '-1', '0.5', '.50', '1e3', '1000', '5000', '1e-2', '0.001', '100'),
-                     t=L('0', '00', '0.0', '.0', '-0', '+0', '1', '1.0', '01', '+1', '-1', '0.5', '.50', '-.5', '1e3', '1E3', '1000', '5000', '1e-2', '0.001', '1.5e2', '10e-1', '0e5', '100', '1e+3', '12345678901234567890', '0.30000', '1e0', '10', '0.10')),
+         slots=[dict(q=L('0', '0.0', '.0', '-0', '1', '1.0', '01', '+1', '-1', '0.5', '.50', '1e3', '1000', '5000', '1e-2', '0.001', '100', '1.5E10', '-0.25E+10', '2.50e-10'),
+                     t=L('0', '00', '0.0', '.0', '-0', '+0', '1', '1.0', '01', '+1', '-1', '0.5', '.50', '-.5', '1e3', '1E3', '1000', '5000', '1e-2', '0.001', '1.5e2', '10e-1', '0e5', '100', '1e+3', '12345678901234567890', '0.30000', '1e0', '10', '0.10', '1.5E10', '1.50E20', '-0.25E+10', '2.50e-10', '2.5E-20', '0.0E10', '15E10', '1.5e+100')),
                 dict(q=L('', '%', 'px', 'PX', 'em', 'deg', 's', 'fr', 'x'), t=L('', '%', 'px', 'PX', 'em', 'rem', 'vh', 'q', 'Q', 'deg', 'turn', 's', 'ms', 'fr', 'dpi', 'hz', 'x', 'e', 'in')),
                 dict(q=L('top', 'calc', 'translate', 'var'), t=L('top', 'calc', 'translate', 'var', 'min', 'foo', 'rotate'))]),
     dict(fam='strurl', props=['content', 'background-image', 'src', 'cursor', 'x'], kind='list', min=1, max=dict(q=1, t=2),
@@ -300,7 +300,7 @@ STRURL = ['"a"', "'a'", '"a\\\nb"', '"a\\"b"', "'it\\'s'", '"\\61 b"', '""', 'ur
           'url("data:image/png;base64,iVBORw0KGgo=")', 'url()', 'url("")', "local('Foo Bar')", 'local("Foo")', 'format("woff")', ',']
 SEL_Q = [('a', 'type'), ('DIV', 'type'), ('*', 'type'), ('.Cls', 'sub'), ('#Id', 'sub'), (' > ', 'comb'), ('+', 'comb'), (' ~ ', 'comb'), (' ', 'comb'), (' , ', 'comb'),
          ('[type="radio"]', 'sub'), (':hover', 'sub'), ('::before', 'sub'), (':not(.x)', 'sub'), (':nth-child(2n + 1)', 'sub')]
-SEL_T = SEL_Q + [(':HOVER', 'sub'), ('::First-Line', 'sub'), (':nth-child(2N+1 of .Cls)', 'sub'), ('[lang|=EN]', 'sub'), ('[href$=".PDF" s]', 'sub'), ('[a^=\'x\']', 'sub'),
+SEL_T = SEL_Q + [('[b=c s]', 'sub'), ('[b="c d" s]', 'sub'), (':HOVER', 'sub'), ('::First-Line', 'sub'), (':nth-child(2N+1 of .Cls)', 'sub'), ('[lang|=EN]', 'sub'), ('[href$=".PDF" s]', 'sub'), ('[a^=\'x\']', 'sub'),
                  ('[data-a=""]', 'sub'), (':is( a , B )', 'sub'), (':where(.X>.Y)', 'sub'), (':has(> IMG)', 'sub'), (':nth-last-child( EVEN )', 'sub'), ('#Id-2', 'sub'), ('.a\\:b', 'sub'),
                  ("[a='b c' i]", 'sub'), ('[ title ~= "x" ]', 'sub'), (':NOT( P , .y )', 'sub'), (':nth-of-type( -n + 3 )', 'sub'), ('[data-x="1a"]', 'sub'),
                  (':lang(EN)', 'sub'), ('[type=a i]', 'sub'), (':nth-child(odd)', 'sub'), ('svg|a', 'type')]
@@ -519,9 +519,23 @@ AT_DECL = [
 ]
 
 
+def import_cases():
+    """@import with every spelling of the target; the constructs of known findings 13 (one-character
+    unquoted url) and 14 (white space before a quoted url) are left out and pinned in known/C04.ndjson"""
+    out = []
+    for t in ('x', 'ab', 'a.css', 'a/b.css?v=1', 'A.CSS'):
+        forms = ['url(%s)', 'url( %s )', 'url("%s")', "url('%s')", 'URL(%s)', '"%s"', "'%s'", 'url(%s )', 'url(\n%s\n)']
+        for f in forms:
+            if len(t) == 1 and f in ('url(%s)', 'url( %s )', 'URL(%s)', 'url(%s )', 'url(\n%s\n)'):
+                continue
+            for tail in ('', ' screen', ' screen and (min-width : 0px)', ' supports(display:grid)'):
+                out.append('@import ' + (f % t) + tail + ';')
+    return out
+
+
 def struct_cases(ctx):
     out = []
-    texts = list(RULES) + list(AT_SIMPLE) + list(AT_DECL)
+    texts = list(RULES) + list(AT_SIMPLE) + list(AT_DECL) + import_cases()
     for a, b in AT_BLOCKS:
         texts.append(a + b)
         for r in (RULES if not ctx.quick() else ctx.rnd.sample(RULES, 6)):
